@@ -12,7 +12,7 @@ Import ListNotations.
 
 Theorem C07_lazy_exact :
   forall (P : Type) ev sev (src : @source json) (vp : list (vertex P)) (tr : @tracecfg json),
-    (forall p m, wf m ->
+    (forall p m, In (VPred p) vp -> wf m ->
        (fst (ev p m tr) = fst (sev p (abs m)) /\
         map abs_ev (snd (ev p m tr)) = proj (tracing tr) (snd (sev p (abs m)))) \/
        (exists e, fst (ev p m tr) = Exn e /\ budget_exn e = true)) ->
